@@ -25,7 +25,9 @@
    do_sbc8_dec, do_sbc16_bin, do_sbc16_dec rewrite Spec816.do_adc / do_sbc into with_C (core C) (with_V (core V)
    (set_nz w r (with_acc w r s))) with r = core result.
 
-   snapshot_dep: Step, finish, tbl_mode, tbl_size, tbl_proc, op_adc, op_sbc, cmdRead, cmdRead16 *)
+   snapshot_dep: op_adc, op_sbc, cmdRead, cmdRead16
+
+   (the line above is machine-read: names, then a blank line) *)
 From Coq Require Import ZArith NArith List Bool Lia.
 From Spec Require Import ISA Spec816.
 From Lib Require Import ZOps Machine.
